@@ -708,7 +708,13 @@ class Visitor(ast.NodeVisitor):
             args = []  # type: List[Any]
             for arg_node in node.args:
                 if isinstance(arg_node, ast.Starred):
-                    args.extend(self.visit(node=arg_node))
+                    starred = self.visit(node=arg_node.value)
+
+                    # Please see "NOTE ABOUT PLACEHOLDERS AND RE-COMPUTATION"
+                    if starred is PLACEHOLDER:
+                        args.append(PLACEHOLDER)
+                    else:
+                        args.extend(starred)
                 else:
                     args.append(self.visit(node=arg_node))
 
